@@ -213,6 +213,7 @@ def check_state_prob(case, out):
         out.fail("get_state_probability:value", f"P({assign}) got {got!r} want {want!r}")
 
 
+THOROUGH_SCALE = 3  # thorough-tier example counts are n["thorough"] x this (one thorough run then takes roughly 5-10 minutes on 16 cores)
 SUBCHECKS = [
     Sub(
         "ve_query",
